@@ -572,6 +572,11 @@ class Type2Tag(Tag):
                     raise Type2TagCommandError(INVALID_SECTOR_ERROR)
             else:
                 log.debug("sector select is not supported for this tag")
+                if len(rsp) == 1 and rsp[0] & 0xFA == 0x00:
+                    # the tag is in halt state after a nak response and
+                    # must be activated again (as in read)
+                    self.target.sel_req = self.target.sdd_res[:]
+                    self._target = self.clf.sense(self.target)
                 raise Type2TagCommandError(INVALID_SECTOR_ERROR)
 
             log.debug("sector {0} is now selected".format(sector))
